@@ -12,6 +12,7 @@ import (
 	"github.com/buildbuildio/pebbles/requests"
 	"github.com/gobwas/ws"
 	"github.com/gobwas/ws/wsutil"
+	"github.com/samber/lo"
 )
 
 func (q *MultiOpQueryer) Subscribe(req *requests.Request, closeCh <-chan struct{}, resCh chan *requests.Response) error {
@@ -132,6 +133,13 @@ func (q *MultiOpQueryer) Subscribe(req *requests.Request, closeCh <-chan struct{
 				if innerErr := json.Unmarshal(msg, &serverErrorResp); innerErr != nil {
 					resCh <- &requests.Response{
 						Errors: gqlerrors.FormatError(fmt.Errorf("undecodable upstream message: %w", innerErr)),
+					}
+					return
+				}
+				// a list which carries no error is not an error msg either
+				if len(serverErrorResp.Payload) == 0 || lo.Contains(serverErrorResp.Payload, nil) {
+					resCh <- &requests.Response{
+						Errors: gqlerrors.FormatError(errors.New("undecodable upstream message: payload is neither a response nor a list of errors")),
 					}
 					return
 				}
